@@ -645,6 +645,11 @@ private:
                 ec = r.error_code();
                 return;
             }
+            if (val < 0 && scale < (std::numeric_limits<int64_t>::min)() - val) // scale <= 0
+            {
+                ec = cbor_errc::invalid_decimal_fraction;
+                return;
+            }
             scale += val;
         }
         visit_int64(scale, semantic_tag::none, context, ec);
@@ -818,6 +823,11 @@ private:
             if (!r)
             {
                 ec = r.error_code();
+                return;
+            }
+            if (val < 0 && scale < (std::numeric_limits<int64_t>::min)() - val) // scale <= 0
+            {
+                ec = cbor_errc::invalid_bigfloat;
                 return;
             }
             scale += val;
